@@ -1,6 +1,7 @@
 package main
 
 import (
+	"regexp"
 	"encoding/json"
 	"flag"
 	"fmt"
@@ -293,6 +294,27 @@ func report(out *checkOutcome, seed int, wall float64, repo string) int {
 		}
 	}
 	if len(missing) > 0 {
+		// a call-site clause that names the k-th call of a callee ("at call f#k assert ...") speaks
+		// about an action the property requires: if that call site no longer exists the required
+		// action is gone
+		reSuffix := regexp.MustCompile(`#[0-9]+$`)
+		for _, m := range missing {
+			if strings.Contains(m, "#callsite:") && !reSuffix.MatchString(m) {
+				if _, ok := known[m]; ok {
+					continue
+				}
+				os.MkdirAll(replayDir, 0o755)
+				path := filepath.Join(replayDir, sanitize(truncate(m, 120))+".json")
+				rec := map[string]any{"property": prop, "obligation": m, "status": "required call site missing",
+					"clause": "the contract names this call site explicitly (at call <callee>#k); the current source has no such call, so the action the clause guards is no longer performed",
+					"replayed_on_real_code": false}
+				b, _ := json.MarshalIndent(rec, "", " ")
+				os.WriteFile(path, b, 0o644)
+				fmt.Printf("VIOLATION property=%s replay=%s no-failing-input-found\n", prop, path)
+				nviol++
+				code = 1
+			}
+		}
 		// obligations tied to the contract text itself must exist; call/loop-shaped ones may move
 		hard := 0
 		for _, m := range missing {
